@@ -73,9 +73,37 @@ def safe_gaps(line):
     return [(toks[i][1], toks[i + 1][0]) for i in range(len(toks) - 1)]
 
 
+_TIGHT = {'=', '+', '*', '/', '%', '<', '>', ',', ')', '==', '!=', '<=', '>=', '&&', '||', '**', ':'}
+
+
+def compact_line(ln):
+    """The same line without the OPTIONAL blanks: none around binary-only operators, the assignment sign, commas, closing parentheses and
+    the colon of a header, none after an opening parenthesis, none between `jumpif` and its parenthesis. (Blanks after a word in front of
+    `(`, `-`, `!`, a quote or a bracket stay: there they can separate a keyword from its expression.)"""
+    if _COMMENT.match(ln) or ln.rstrip().endswith('\\') or (ln.count("'") + ln.count('"')) % 2 or _INCLUDE_SYS.match(ln) or re.match(r'^\s*include\s', ln):
+        return ln
+    toks = tokens_of(ln)
+    if not toks:
+        return ln
+    out = [ln[:toks[0][0]]]
+    for k, (a, b) in enumerate(toks):
+        tok = ln[a:b]
+        out.append(tok)
+        if k + 1 < len(toks):
+            nxt = ln[toks[k + 1][0]:toks[k + 1][1]]
+            gap = ln[b:toks[k + 1][0]]
+            if gap and (tok in _TIGHT or nxt in _TIGHT or tok == '(' or (tok == 'jumpif' and nxt == '(' and k == 0)) and not (tok == ':' or (nxt == ':' and k + 2 < len(toks)) or (tok == ')' and (nxt[:1].isalnum() or nxt[:1] == '_'))):
+                gap = ''
+            out.append(gap)
+    out.append(ln[toks[-1][1]:])
+    return ''.join(out)
+
+
 def rewrite(text, rnd):
     """One random layout rewrite of a text; returns (script_text argument, description)."""
     lines = text.split('\n')
+    if rnd.random() < 0.3:
+        lines = [compact_line(ln) for ln in lines]
     ops = []
     out = []
     indent_mode = rnd.choice(['keep', 'none', 'spaces', 'tab', 'keep'])
